@@ -38,16 +38,18 @@ def sim_changes(draw, spec, allow_bad=True, reachable_only=True):
     out, seen, cur = [], set(), spec
     for _ in range(n):
         e = draw(G.simple_edit(cur))
-        if reachable_only and e["obj"] not in S.spec_reachable(cur):
+        if reachable_only and e.get("obj", e["edits"][0]["obj"] if e["op"] == "group" else None) not in \
+                S.spec_reachable(cur):
             # a what-if on an object outside the system is not a meaningful simulation: fall back (by construction)
             # to a numeric change on a reachable object
             names = sorted(x for x in S.spec_reachable(cur) if S.quantity_inputs(cur["objs"][x]["cls"]))
             e = draw(G.quantity_edit(cur, names=names))
-        key = (e["obj"], E._attr_of(e))
-        if key in seen:
+        parts = e["edits"] if e["op"] == "group" else [e]
+        if any((x["obj"], E._attr_of(x)) in seen for x in parts):
             continue
-        seen.add(key)
-        out.append(e)
+        for x in parts:
+            seen.add((x["obj"], E._attr_of(x)))
+            out.append(x)
         cur = E.apply_spec(cur, e)
     bad = None
     if allow_bad:
